@@ -16,7 +16,7 @@ import dlib  # noqa: E402
 
 logging.disable(logging.CRITICAL)
 
-from traits.api import Event, HasTraits, Property, TraitError, push_exception_handler, pop_exception_handler  # noqa: E402
+from traits.api import Any, Event, HasTraits, List, Property, TraitError, push_exception_handler, pop_exception_handler  # noqa: E402
 from traits.trait_type import TraitType  # noqa: E402
 from traits.constants import ComparisonMode  # noqa: E402
 
@@ -125,6 +125,11 @@ def make_class(case, env):
         if t["kind"] == "prop":
             ns[name] = make_property(i, t, env)
             continue
+        if t["dflt"][0] == "obj":
+            # a container trait: the default is a NEW TraitListObject built by call_class on first read; pool values
+            # are not lists, so every assignment is rejected by the C-level validator
+            ns[name] = List(Any)
+            continue
         tt = make_type(t, env)
         ns[name] = Event(tt) if (t["kind"] == "event" and t["hv"]) else Event() if t["kind"] == "event" else tt
         if t["dflt"][0] == "call" and t["kind"] != "event":
@@ -176,6 +181,8 @@ def run_case(ci, case, progress):
             return P
         if type(v) is V and v.n < P and env.pool[v.n] is v:
             return v.n
+        if isinstance(v, list):
+            return -4                      # a container object created for a default value
         return -99
     env.val, env.atom = val, atom
     K = make_class(case, env)
